@@ -31,7 +31,7 @@ VARIABLES cfg,        \* [pa: Seq(Attr), ra: Seq(Attr), tagged: BOOLEAN, devs: S
           wire,       \* request on the wire: per payload attribute [loc, v]
           delivered,  \* payload as received by the service method
           invoked,
-          status,     \* HTTP status class: 0 (none yet), 200, 201 (tagged response), 400, 404
+          status,     \* HTTP status class: 0 (none yet), 200, 201 (tagged response), 400, 404, 500 (the decoder crashed: only under a deviation)
           errname,    \* error name in a 4xx answer
           rwire,      \* response on the wire: per result attribute [loc, v]
           returned,   \* result as seen by the client caller
@@ -42,7 +42,7 @@ vars == <<cfg, pv, rv, pc, wire, delivered, invoked, status, errname, rwire, ret
 \* the oracle: what the design promises
 \* nil and empty lists / maps / byte strings are the same "nothing there" (a query string or a header cannot
 \* even express the difference)
-ContainerNests == {"elem", "mapkey", "mapval", "mapval_elem", "elem_nested", "mapval_nested", "mapkey_alias", "whole_elem", "whole_mapval"}
+ContainerNests == {"elem", "mapkey", "mapval", "mapval_elem", "mapparams", "elem_nested", "mapval_nested", "mapkey_alias", "whole_elem", "whole_mapval"}
 Emptyish(a, v) == v # Absent /\ ((a.nest \in ContainerNests /\ v.cn = 0) \/ (a.kind = "bytes" /\ v.n = 0))
 \* (for a required list the generated client sends [] when the caller left it nil: either reading is allowed;
 \* an optional list that is left unset is simply not there, and constraints apply to present values only)
